@@ -41,7 +41,7 @@ pub struct CliScenario {
     /// number of -v flags (0: info, 1: debug, 2+: trace): debug!/trace! statements then run too
     pub verbosity: u64,
     /// "none" | "enoent" | "enotdir" | "eisdir-json" | "eisdir-svg" | "enospc-json" | "enospc-svg"
-    /// | "start-config-missing" | "start-config-other-group" | "stale-output"
+    /// | "start-config-missing" | "start-config-other-group" | "stale-output" | "stale-earlier-result"
     pub fault: String,
 }
 
@@ -254,6 +254,27 @@ pub fn run_cli(sc: &CliScenario) -> Result<CliResult, String> {
             if st.success() {
                 start_config = Some(pre_out.with_extension("json").to_string_lossy().to_string());
             }
+        }
+        // F-stale with content that means something: an earlier, longer run with the same shape,
+        // potential and group already wrote its (probably better) result to the same --outfile
+        "stale-earlier-result" => {
+            let mut pre = sc.clone();
+            pre.fault = "none".into();
+            pre.steps = Some(sc.steps.unwrap_or(100).saturating_mul(6).saturating_add(400).min(5000));
+            pre.replications = Some(sc.replications.unwrap_or(1).saturating_add(3).min(12));
+            pre.convergence = None;
+            pre.verbosity = 0;
+            let argv = pre.argv(&out.to_string_lossy(), None);
+            let _ = Command::new(&bin)
+                .args(&argv)
+                .env_clear()
+                .env("RAYON_NUM_THREADS", "1")
+                .current_dir(&dir)
+                .stdin(Stdio::null())
+                .stdout(Stdio::null())
+                .stderr(Stdio::null())
+                .status()
+                .map_err(|e| format!("spawn (earlier run): {}", e))?;
         }
         // F-stale: both output files already exist, longer than anything the run will write
         "stale-output" => {
